@@ -209,7 +209,13 @@ impl<'a> Ctx<'a> {
             }
             10 if self.f.calls && !self.modules.is_empty() => {
                 let m = self.r.pick(&self.modules).clone();
-                Expr::Call(Box::new(member(id(&m), "f")), vec![self.expr(depth + 1)])
+                if self.r.chance(0.45) {
+                    // the value depends on everything below an object: a whole-object dependency
+                    let o = if self.r.chance(0.25) && !self.in_template { id(*self.r.pick(&["list", "l2"])) } else { self.object_leaf() };
+                    Expr::Call(Box::new(member(id(&m), "j")), vec![o])
+                } else {
+                    Expr::Call(Box::new(member(id(&m), "f")), vec![self.expr(depth + 1)])
+                }
             }
             11 => {
                 // string concatenation with a literal on one side
@@ -532,9 +538,15 @@ impl<'a> Ctx<'a> {
         let mut attrs = vec![];
         match kind {
             "plain" => {
-                attrs.push(Attr { name: "p".into(), val: self.attr_val() });
+                if self.r.chance(0.3) {
+                    let o = self.object_leaf();
+                    attrs.push(Attr { name: "p".into(), val: AttrVal::Bind(o) });
+                } else {
+                    attrs.push(Attr { name: "p".into(), val: self.attr_val() });
+                }
                 if self.r.chance(0.5) {
-                    attrs.push(Attr { name: "q".into(), val: AttrVal::Bind(self.top_expr()) });
+                    let v = if self.r.chance(0.25) && !self.in_template { id(*self.r.pick(&["list", "l2"])) } else { self.top_expr() };
+                    attrs.push(Attr { name: "q".into(), val: AttrVal::Bind(v) });
                 }
                 if self.r.chance(0.2) {
                     attrs.push(Attr { name: "id".into(), val: self.attr_val() });
@@ -796,7 +808,7 @@ fn gen_schedule(r: &mut Rng, vg: &mut ValGen, f: &Features, safe_splice: bool, p
 
 pub fn catalogue_file(kind: &str) -> TFile {
     let raw = match kind {
-        "plain" => "<text>P:{{p}}:{{q}}</text><slot/>",
+        "plain" => "<text>P:{{p}}:{{q}}:{{p.x}}:{{p.k}}:{{p.y.z}}:{{q.length}}</text><slot/>",
         "multi" => "<view id=\"sa\"><slot name=\"a\"/></view><view id=\"sb\"><slot name=\"b\"/></view><text>M:{{p}}</text><slot/>",
         "mchild" => "<text>V:{{val}}</text>",
         "dyn" => "<text>D:{{p}}</text><block wx:for=\"{{items}}\" wx:key=\"k\"><slot sv=\"{{item}}\" si=\"{{index}}\"/></block>",
@@ -817,8 +829,8 @@ pub fn catalogue_component(kind: &str) -> Value {
     }
 }
 
-const WXS_INLINE: &str = "exports.f = function(a){ return 'f(' + a + ')' }; exports.f.__id = 'index#m:f'; exports.o = { g: function(a){ return 'g' } }; exports.o.g.__id = 'index#m:o.g'; exports.k = 7";
-const WXS_EXT: &str = "exports.f = function(a){ return 's(' + a + ')' }; exports.f.__id = 'utils/s:f'; exports.o = { g: function(a){ return 'sg' } }; exports.o.g.__id = 'utils/s:o.g'; exports.k = 9";
+const WXS_INLINE: &str = "exports.j = function(a){ return JSON.stringify(a) }; exports.j.__id = 'index#m:j'; exports.f = function(a){ return 'f(' + a + ')' }; exports.f.__id = 'index#m:f'; exports.o = { g: function(a){ return 'g' } }; exports.o.g.__id = 'index#m:o.g'; exports.k = 7";
+const WXS_EXT: &str = "exports.j = function(a){ return JSON.stringify(a) }; exports.j.__id = 'utils/s:j'; exports.f = function(a){ return 's(' + a + ')' }; exports.f.__id = 'utils/s:f'; exports.o = { g: function(a){ return 'sg' } }; exports.o.g.__id = 'utils/s:o.g'; exports.k = 9";
 
 // ---------------------------------------------------------------------------------------------
 
@@ -827,6 +839,7 @@ pub fn generate(seed: u64, prop: Prop) -> World {
     let mut rt = Rng::fork(seed, "rt.template");
     let mut rd = Rng::fork(seed, "rt.data");
     let mut ro = Rng::fork(seed, "rt.ops");
+    let mut rs = Rng::fork(seed, "rt.syntax");
 
     // swarm: enabled feature subset per run
     let f = Features {
@@ -868,7 +881,7 @@ pub fn generate(seed: u64, prop: Prop) -> World {
         modules.push("ms".to_string());
     }
 
-    let mut root = TFile { path: "index".into(), ..Default::default() };
+    let mut root = TFile { path: "index".into(), style: if rs.chance(0.6) { rs.below(32) as u32 } else { 0 }, ..Default::default() };
     if with_inline {
         root.wxs_inline.push(("m".into(), WXS_INLINE.into()));
     }
@@ -894,7 +907,7 @@ pub fn generate(seed: u64, prop: Prop) -> World {
             ctx.in_template = false;
             (name.to_string(), b)
         };
-        let mut l = TFile { path: "lib/tpls".into(), ..Default::default() };
+        let mut l = TFile { path: "lib/tpls".into(), style: if rs.chance(0.5) { rs.below(32) as u32 } else { 0 }, ..Default::default() };
         l.templates.push(mk(&mut ctx, "t1"));
         l.templates.push(mk(&mut ctx, "t2"));
         root.imports.push((*ctx.r.pick(&["/lib/tpls", "lib/tpls.wxml", "./lib/tpls"])).to_string());
@@ -907,7 +920,7 @@ pub fn generate(seed: u64, prop: Prop) -> World {
     let mut inc: Option<TFile> = None;
     if f.include {
         ctx.budget = 5;
-        let mut i = TFile { path: "inc/part".into(), ..Default::default() };
+        let mut i = TFile { path: "inc/part".into(), style: if rs.chance(0.5) { rs.below(32) as u32 } else { 0 }, ..Default::default() };
         let saved_mods = std::mem::take(&mut ctx.modules);
         i.body = ctx.nodes(1);
         ctx.modules = saved_mods;
